@@ -63,10 +63,21 @@ def sentinel_obligation(ctx, modnames, what):
 # the text in front (an xpub that ends in a digit of the account index loses it).  Flagged: strip / lstrip / rstrip whose argument is an
 # f-string, or a constant with two or more different non-blank characters.  The reference tree strips single characters only.
 
+# instances of the reference tree confirmed by reading: (module, function, argument) -> why the set reading and the suffix reading agree there
+CONFIRMED_STRIPS = {
+    ("psbt", "__class__.__name__", "ScriptPubKey"): "applied to the class names P2PKHScriptPubKey / P2SHScriptPubKey / P2WPKHScriptPubKey / P2WSHScriptPubKey / "
+                                                                       "P2TRScriptPubKey only: the remaining prefixes end in H or R, which are not in the set; display label",
+}
+
+
 def strip_set_sites(mod):
     hits, n = [], 0
     for qn, fn in mod.functions.items():
         for c in ast.walk(fn):
+            if isinstance(c, ast.Call) and isinstance(c.func, ast.Attribute) and c.func.attr in ("strip", "lstrip", "rstrip") and len(c.args) == 1 \
+                    and isinstance(c.args[0], ast.Constant) and any(m_ == mod.name and ast.unparse(c.func.value).endswith(r_) and a_ == c.args[0].value for m_, r_, a_ in CONFIRMED_STRIPS):
+                n += 1
+                continue
             if isinstance(c, ast.Call) and isinstance(c.func, ast.Attribute) and c.func.attr in ("strip", "lstrip", "rstrip") and len(c.args) == 1:
                 n += 1
                 a = c.args[0]
